@@ -6,6 +6,11 @@ ORACLE_RELOAD = ("suite_oracle", {"n": {"quick": 200, "thorough": 3000}, "modes"
 ORACLE_CRASH = ("suite_oracle", {"n": {"quick": 120, "thorough": 1500}, "modes": ("crash",)})
 ORACLE_CRASH_ALL = ("suite_oracle:run_crash_all", {"n": {"quick": 36, "thorough": 400}})
 
+SYMMETRY = ("suite_symmetry", {"n": {"quick": 80, "thorough": 1200}})
+HYPERBAND = ("suite_hyperband", {"n": {"quick": 100, "thorough": 2500}})
+LIVENESS = ("suite_liveness", {"n": {"quick": 120, "thorough": 2500}})
+ORACLE_SMALL = ("suite_oracle", {"n": {"quick": 120, "thorough": 2000}})
+
 NOT_CLAIMED = {}
 
 CORE_NOTE = ("Trusted: Lean kernel; the hand-written generic oracle model (Ktm/Core.lean: create/update/endT over an arbitrary "
@@ -53,4 +58,34 @@ PROPS = {
                           "(thorough tier: second crash after every first crash) but not covered by a theorem (second_crash_partial). The "
                           "tuner-level restart (tuner0.json) is part of the `search` suite (C19).",
             "assumptions": ["atomic whole-file writes", "durably recorded = listed in the on-disk end_order"]},
+    "C04": {"suites": [ORACLE_SMALL, SYMMETRY],
+            "level_text": "Theorems (Ktm/Props/C04.lean): get_best_trials = stable sort of the COMPLETED trials in the objective's direction "
+                          "(sorted, completed-first, length for every n, top-n optimality), score = best per-step mean ignoring NaN, NaN never "
+                          "COMPLETED, ranking symmetric under (max, s) <-> (min, -s) incl. ties and infinities, Hyperband's promotion winner symmetric.",
+            "level_note": CORE_NOTE + " Ranking and scoring run in the model (Ranking.bestTrials, Metrics.bestValue over exact extended rationals) and "
+                          "are compared with get_best_trials / trial.score after random histories. The whole-search symmetry clause for the four real "
+                          "oracles (incl. the Bayesian GP, which is not modelled) is decided by the `symmetry` suite: each scenario is run twice on "
+                          "the implementation, (max, s) and (min, -s), and the complete traces must be identical; only the ranking and the Hyperband "
+                          "winner are proved symmetric in Lean.",
+            "assumptions": ["sklearn GPR / scipy optimiser: same inputs => same outputs"]},
+    "C10": {"suites": [HYPERBAND],
+            "level_text": "Theorems (Ktm/Props/C10.lean): epochs = ceil(max_epochs/factor^(b-r)) exactly, monotone along rounds, max_epochs in the last "
+                          "round; every freshly issued trial in every reachable state carries the labels of the round it is recorded in, rounds never "
+                          "exceed their scheduled size, a promoted trial continues a distinct COMPLETED member of the previous round of the same "
+                          "bracket with identical values; promotion rank: fewer strictly better trials in the previous round than places in the next, "
+                          "in every later state, ties included (combinatorial lemma).",
+            "level_note": "The whole HyperbandOracle is modelled (HB.alg over the generic core, Ktm/Hyperband*.lean) and re-executed by the compiled "
+                          "model on every generated schedule: answers, labels, bracket tables, sizes/epochs tables compared. Sizes/epochs use exact "
+                          "integer arithmetic in the model and float formulas in the code; their equality is checked for every generated "
+                          "configuration, not proved. The random sampler's output is an input (fresh configuration index or 'exhausted').",
+            "assumptions": ["float formulas of _get_size/_get_epochs agree with the exact ones on the generated configurations (checked each run)"]},
+    "C11": {"suites": [LIVENESS, HYPERBAND],
+            "level_text": "Theorems (Ktm/Props/C11.lean): IDLE implies a running trial for every algorithm meeting the contract, proved for Hyperband, "
+                          "grid and random sampling; a single tuner is never told IDLE; STOPPED is answered only with no retry pending and budget "
+                          "used up or algorithm finished (grid: queue exhausted and nothing running; random: max_collisions+1 collisions); the "
+                          "search loop's trace shape (C19). Bounded-runs and all-workers-reach-STOPPED are evaluated by the fair-scheduler suite.",
+            "level_note": "partial: the quantitative clause (every fair schedule reaches STOPPED within budget x (retries+1) runs) is checked on the "
+                          "implementation by the `liveness` suite (fair random schedulers incl. all-fail patterns and empty initial spaces) with explicit "
+                          "bounds, not proved as a theorem; the IDLE / STOPPED decision logic is proved. " + CORE_NOTE,
+            "assumptions": ["fairness = every started trial is eventually ended (scheduler of the suite)"]},
 }
